@@ -157,7 +157,10 @@ def enabled_ops(m, settled):
     return ops
 
 
-def body(W, plan, hr, history, final_probe=True):
+def body(W, plan, hr, history, final_probe=True, racing=False):
+    """racing=True: the scheduler's window is open while the history's
+    'settle' ops run, so which of several live networking threads continues
+    at each blocking point becomes a choice the explorer enumerates."""
     S, C = W.S, W.C
     install_run_monitor(C)
     S.in_run = S.max_in_run = 0
@@ -221,6 +224,11 @@ def body(W, plan, hr, history, final_probe=True):
     statuses = []
     probe = [1000]
     settled = True
+    stats = {'max_racing': 0}
+    if racing:
+        S.state_fn = statehash.make_state_fn(
+            W, CANON, [conn], extra=lambda: (errs, exits, m.key(), plan, hr,
+                                             history))
 
     def check_invariants(where):
         if getattr(S, 'max_in_run', 0) > 1:
@@ -303,7 +311,13 @@ def body(W, plan, hr, history, final_probe=True):
             settled = False
         elif op == 'settle':
             m.process()
-            W.settle()
+            nlive = len([a for a in S.live() if a.state != 'parked'])
+            stats['max_racing'] = max(stats['max_racing'], nlive)
+            S.window = racing
+            try:
+                W.settle()
+            finally:
+                S.window = False
             settled = True
             quiescent_checks(where)
         elif op in ('ka99', 'kick', 'garbage'):
@@ -370,7 +384,7 @@ def body(W, plan, hr, history, final_probe=True):
     return {'outcome': (tuple(errs), len(exits), len(W.net.conns),
                         W.net.refused, mk),
             'violations': viol, 'state': state,
-            'enabled': en, 'mkey': mk}
+            'enabled': en, 'mkey': mk, 'max_racing': stats['max_racing']}
 
 
 def abstract_state(W, conn, m, settled, budget):
@@ -464,8 +478,13 @@ def w_level(ctx, task):
                            'history': list(history)})
         ctx.outcome('errs=%s exits=%s' % (res.get('outcome', ('?',))[0:2]))
         if not viol:
-            out.append((plan, hr, history, res['state'], res['enabled']))
+            out.append((plan, hr, history, res['state'], res['enabled'],
+                        res['max_racing']))
     ctx.extra['lvl'] = out
+
+
+RACY = []      # histories with >= 2 runnable threads at a settle
+RACY_DEPTH = [7]
 
 
 def bfs(ctx, depth, dedup=True, label='bfs'):
@@ -484,7 +503,9 @@ def bfs(ctx, depth, dedup=True, label='bfs'):
         if ctx.violations:
             return
         nxt = []
-        for plan, hr, history, state, enabled in sorted(lvl):
+        for plan, hr, history, state, enabled, racing in sorted(lvl):
+            if racing >= 2 and (not dedup or len(history) <= RACY_DEPTH[0]):
+                RACY.append((plan, hr, history))
             key = (plan, hr, state) if dedup else (plan, hr, history)
             if key in seen:
                 continue
@@ -671,6 +692,17 @@ def factory(params):
     return scenario
 
 
+def racing_factory(params):
+    plan, hr, history = (tuple(params['plan']), params['hr'],
+                         tuple(params['history']))
+
+    def scenario(prefix, expect, visited=None, budget=0):
+        return harness.run(lambda W: body(W, plan, hr, history, True, True),
+                           prefix, tracing=True, expect=expect,
+                           horizon=100000, visited=visited, budget=budget)
+    return scenario
+
+
 QUICK_B = {(s, p): 1 for s in STARTS for p in PROGS}
 QUICK_B.update({(s, 'connect||disc'): 2 for s in ('fresh', 'play')})
 QUICK_B.update({(s, 'connect||connect'): 2 for s in ('fresh', 'disconnected')})
@@ -678,6 +710,7 @@ QUICK_B.update({(s, 'connect||connect'): 2 for s in ('fresh', 'disconnected')})
 
 def run(ctx):
     # every history up to a depth, no abstraction trusted
+    RACY_DEPTH[0] = 12 if ctx.thorough else 7
     bfs(ctx, 5 if ctx.thorough else 4, dedup=False, label='all_histories')
     if ctx.violations:
         return
@@ -687,6 +720,18 @@ def run(ctx):
         return
     ex = explore.Explorer(table_bits=25 if ctx.thorough else 23)
     try:
+        # (c) histories in which several networking threads are runnable at
+        # a settle: every order in which they can take their turns
+        racy = sorted(set(RACY))
+        ctx.extra['racing_histories'] = len(racy)
+        for plan, hr, history in racy:
+            res = ex.explore(ctx, racing_factory,
+                             {'plan': list(plan), 'hr': hr,
+                              'history': list(history)},
+                             1 if ctx.thorough else 0,
+                             label='racing %s ' % ','.join(history),
+                             fresh_table=ctx.thorough)
+            ctx.cls('racing histories explored')
         for (start, prog), b in sorted(QUICK_B.items()):
             if ctx.thorough:
                 b += 1
@@ -717,6 +762,17 @@ def replay(ctx, case):
             viol.append((x.failure[0], '%s: %s' % x.failure))
         for key, what in viol:
             ctx.violation('history %s' % key, what, case)
+        return
+    if 'history' in case['params']:
+        scenario = racing_factory(case['params'])
+        x = scenario(list(case['choices']), None, None, 0)
+        res = x.result or {}
+        viol = list(res.get('violations', ()))
+        if x.failure is not None:
+            viol.append((x.failure[0], '%s: %s' % x.failure))
+        for key, what in viol:
+            ctx.violation('racing %s %s' % (
+                ','.join(case['params']['history']), key), what, case)
         return
     scenario = factory(case['params'])
     x = scenario(list(case['choices']), None, None, 0)
